@@ -154,11 +154,18 @@ pub struct ScenarioD2 {
 
 pub struct SimD2;
 
+/// key of the book another connection feeds
+const BYSTANDER: usize = 99;
+
 type Side = BTreeMap<i64, i64>;
 
 fn truth_at(inst: &InstD2, id: u64) -> (Side, Side) {
     let (mut b, mut a) = (Side::new(), Side::new());
     for (is_bid, p, q) in inst.changes.iter().take(id as usize) {
+        if *q < 0 {
+            // an update id the venue used up without changing this book
+            continue;
+        }
         let side = if *is_bid { &mut b } else { &mut a };
         if *q == 0 {
             side.remove(p);
@@ -186,6 +193,9 @@ fn ev_json(inst: &InstD2, sym: &str, k: usize, futures: bool) -> String {
     let (big_u, u, pu) = ev_range(inst, k);
     let (mut b, mut a): (BTreeMap<i64, i64>, BTreeMap<i64, i64>) = Default::default();
     for (is_bid, p, q) in &inst.changes[(big_u - 1) as usize..u as usize] {
+        if *q < 0 {
+            continue;
+        }
         if *is_bid {
             b.insert(*p, *q);
         } else {
@@ -456,7 +466,9 @@ impl Sim for SimD2 {
                         let is_bid = rng.chance(1, 2);
                         let p = if is_bid { rng.range(95, 99) } else { rng.range(101, 105) };
                         let q = if rng.chance(1, 4) { 0 } else { rng.range(1, 9) };
-                        (is_bid, p, q)
+                        // (q < 0: the update id is used up without a change - an event made of such
+                        // ids only is a depth update with empty bids and asks)
+                        if rng.chance(1, 8) { (is_bid, p, -1) } else { (is_bid, p, q) }
                     })
                     .collect();
                 let mut cuts = Vec::new();
@@ -647,7 +659,11 @@ impl Sim for SimD2 {
         let delivered: Arc<Mutex<Vec<(usize, usize)>>> = Arc::new(Mutex::new(Vec::new()));
         let conn_counter = Arc::new(Mutex::new(0usize));
         let reader_fired = Arc::new(Mutex::new(false));
-        let books: FnvHashMap<usize, Arc<RwLock<OrderBook>>> = (0..n_inst).map(|i| (i, Arc::new(RwLock::new(OrderBook::default())))).collect();
+        let mut books: FnvHashMap<usize, Arc<RwLock<OrderBook>>> = (0..n_inst).map(|i| (i, Arc::new(RwLock::new(OrderBook::default())))).collect();
+        // a book of the same manager that another connection feeds; that connection is quiet (and
+        // stays up) during this run, so nothing this connection goes through may touch it
+        let bystander = OrderBook::new(77, None, vec![Level::new(Decimal::new(505, 1), Decimal::ONE)], vec![Level::new(Decimal::new(1505, 1), Decimal::TWO)]);
+        books.insert(BYSTANDER, Arc::new(RwLock::new(bystander.clone())));
         let book_map = OrderBookMapMulti::new(books);
         let (init_calls, end_ms): (usize, u64) = rt.block_on(async {
             let start = tokio::time::Instant::now();
@@ -786,6 +802,13 @@ impl Sim for SimD2 {
         'chk: loop {
             if let Some((rule, step, detail)) = &plog.violation {
                 fail!('chk, rule, *step, "{detail}");
+            }
+            {
+                let b = book_map.find(&BYSTANDER).unwrap();
+                let b = b.read();
+                if *b != bystander {
+                    fail!('chk, "B3_book_differs_from_exchange", plog.items.len(), "the book fed by another (quiet, healthy) connection of the same manager changed from {bystander:?} to {:?}", *b);
+                }
             }
             // final book check (the manager is parked on a pending stream)
             for (i, inst) in insts.iter().enumerate() {
